@@ -63,6 +63,100 @@ type Rec struct {
 	States      int64
 	Transitions int64
 	Traces      int64
+
+	StatesAreOutcomes bool
+	// process sharding: a child process runs shard Shard of Shards and dumps a Partial instead of finishing
+	Shard, Shards int
+}
+
+// Partial is what a shard process hands back to the parent.
+type Partial struct {
+	Evals       int64
+	Nontriv     []uint64
+	Outcomes    map[string]int64
+	Samples     []any
+	Viol        map[string]*Violation
+	ViolCount   map[string]int64
+	States      int64
+	Transitions int64
+	Traces      int64
+	Exhaustive  bool
+	Extra       map[string]any
+	Rule        string
+	Assumptions []string
+}
+
+func (r *Rec) DumpPartial(path string) error {
+	r.mu.Lock()
+	defer r.mu.Unlock()
+	p := Partial{Evals: r.evals, Outcomes: r.outcomes, Samples: r.samples, Viol: r.viol, ViolCount: r.violCount, States: r.States,
+		Transitions: r.Transitions, Traces: r.Traces, Exhaustive: r.Exhaustive, Extra: r.Extra, Rule: r.Rule, Assumptions: r.Assumptions}
+	for h := range r.nontriv {
+		p.Nontriv = append(p.Nontriv, h)
+	}
+	b, err := json.Marshal(p)
+	if err != nil {
+		return err
+	}
+	return os.WriteFile(path, b, 0o644)
+}
+
+func (r *Rec) MergePartial(path string) error {
+	b, err := os.ReadFile(path)
+	if err != nil {
+		return err
+	}
+	var p Partial
+	if err := json.Unmarshal(b, &p); err != nil {
+		return err
+	}
+	r.mu.Lock()
+	defer r.mu.Unlock()
+	r.evals += p.Evals
+	for _, h := range p.Nontriv {
+		r.nontriv[h] = struct{}{}
+	}
+	for k, v := range p.Outcomes {
+		r.outcomes[k] += v
+	}
+	for _, s := range p.Samples {
+		if len(r.samples) < r.maxSamples {
+			r.samples = append(r.samples, s)
+		}
+	}
+	for sig, v := range p.Viol {
+		r.violCount[sig] += p.ViolCount[sig]
+		if old, ok := r.viol[sig]; !ok || len(v.Msg) < len(old.Msg) {
+			r.viol[sig] = v
+		}
+	}
+	r.States += p.States
+	r.Transitions += p.Transitions
+	r.Traces += p.Traces
+	if !p.Exhaustive {
+		r.Exhaustive = false
+	}
+	for k, v := range p.Extra {
+		// numeric extras that are per-shard counters are summed when they end in "_sum"; others: first writer wins
+		if f, ok := v.(float64); ok && strings.HasSuffix(k, "_sum") {
+			if old, ok := r.Extra[k].(float64); ok {
+				r.Extra[k] = old + f
+			} else {
+				r.Extra[k] = f
+			}
+			continue
+		}
+		if _, ok := r.Extra[k]; !ok {
+			r.Extra[k] = v
+		}
+	}
+	if r.Rule == "" {
+		r.Rule = p.Rule
+	}
+	if len(r.Assumptions) == 0 {
+		r.Assumptions = p.Assumptions
+	}
+	return nil
 }
 
 func New(id, tier, level string) *Rec {
@@ -81,10 +175,29 @@ func New(id, tier, level string) *Rec {
 		d = time.Duration(n) * time.Second
 	}
 	r.Deadline = r.start.Add(d)
+	r.Shards = 1
+	if v := os.Getenv("VERIF_SHARD"); v != "" {
+		fmt.Sscan(v, &r.Shard)
+		fmt.Sscan(os.Getenv("VERIF_NSHARDS"), &r.Shards)
+		if t := os.Getenv("VERIF_START_UNIX"); t != "" {
+			var u int64
+			fmt.Sscan(t, &u)
+			r.start = time.Unix(u, 0)
+			r.Deadline = r.start.Add(d)
+		}
+	}
 	return r
 }
 
-func (r *Rec) Expired() bool { return time.Now().After(r.Deadline) }
+// Expired: the internal deadline passed (or, for mutant runs only, VERIF_STOP_ON_VIOLATION is set and one was found).
+func (r *Rec) Expired() bool {
+	if stopOnViolation && r.NumViolations() > 0 {
+		return true
+	}
+	return time.Now().After(r.Deadline)
+}
+
+var stopOnViolation = os.Getenv("VERIF_STOP_ON_VIOLATION") != ""
 
 func H(s string) uint64 { h := fnv.New64a(); h.Write([]byte(s)); return h.Sum64() }
 
@@ -141,8 +254,8 @@ func (r *Rec) Violation(sig, msg string, detail any) {
 	}
 }
 
-// StatesFromOutcomes sets States to the number of distinct outcome keys recorded so far.
-func (r *Rec) StatesFromOutcomes() { r.mu.Lock(); defer r.mu.Unlock(); r.States = int64(len(r.outcomes)) }
+// StatesFromOutcomes makes Finish report the number of distinct outcome keys as the number of states.
+func (r *Rec) StatesFromOutcomes() { r.Extra["states_are_outcomes"] = true }
 
 func (r *Rec) NumViolations() int { r.mu.Lock(); defer r.mu.Unlock(); return len(r.viol) }
 
@@ -175,6 +288,10 @@ func matches(f Finding, id, sig string) bool {
 func (r *Rec) Finish() int {
 	r.mu.Lock()
 	defer r.mu.Unlock()
+	if v, _ := r.Extra["states_are_outcomes"].(bool); v {
+		r.StatesAreOutcomes = true
+		delete(r.Extra, "states_are_outcomes")
+	}
 	findings := loadFindings()
 	sigs := make([]string, 0, len(r.viol))
 	for s := range r.viol {
@@ -196,8 +313,12 @@ func (r *Rec) Finish() int {
 			fresh = append(fresh, s)
 		}
 	}
-	os.MkdirAll(filepath.Join(Root, "evidence"), 0o755)
-	os.MkdirAll(filepath.Join(Root, "replays"), 0o755)
+	evDir, rpDir := filepath.Join(Root, "evidence"), filepath.Join(Root, "replays")
+	if d := os.Getenv("VERIF_SCRATCH_OUT"); d != "" { // mutant / seeded-change runs must not overwrite committed evidence
+		evDir, rpDir = filepath.Join(d, "evidence"), filepath.Join(d, "replays")
+	}
+	os.MkdirAll(evDir, 0o755)
+	os.MkdirAll(rpDir, 0o755)
 	cov := map[string]any{
 		"evaluations":         r.evals,
 		"distinct_nontrivial": len(r.nontriv),
@@ -208,6 +329,9 @@ func (r *Rec) Finish() int {
 	}
 	if len(r.outcomes) <= 40 {
 		cov["outcomes"] = r.outcomes
+	}
+	if r.StatesAreOutcomes {
+		r.States = int64(len(r.outcomes))
 	}
 	if r.Level == "model_checking" || r.States > 0 {
 		cov["states"] = r.States
@@ -233,7 +357,7 @@ func (r *Rec) Finish() int {
 		evd["assumptions"] = []string{}
 	}
 	b, _ := json.MarshalIndent(evd, "", " ")
-	if err := os.WriteFile(filepath.Join(Root, "evidence", r.ID+".json"), b, 0o644); err != nil {
+	if err := os.WriteFile(filepath.Join(evDir, r.ID+".json"), b, 0o644); err != nil {
 		fmt.Fprintf(os.Stderr, "cannot write evidence: %v\n", err)
 		return 2
 	}
@@ -245,7 +369,7 @@ func (r *Rec) Finish() int {
 	for _, s := range fresh {
 		v := r.viol[s]
 		h := sha256.Sum256([]byte(s))
-		p := filepath.Join(Root, "replays", fmt.Sprintf("%s-%s.json", r.ID, hex.EncodeToString(h[:6])))
+		p := filepath.Join(rpDir, fmt.Sprintf("%s-%s.json", r.ID, hex.EncodeToString(h[:6])))
 		rb, _ := json.MarshalIndent(map[string]any{"property": r.ID, "tier": r.Tier, "sig": v.Sig, "msg": v.Msg, "count": r.violCount[s], "detail": v.Detail}, "", " ")
 		os.WriteFile(p, rb, 0o644)
 		fmt.Printf("VIOLATION property=%s replay=%s\n", r.ID, p)
